@@ -1040,7 +1040,7 @@ bool Process::setEnvironmentVariable(const String& name, const String& value)
   return SetEnvironmentVariable((const char*)name, value.isEmpty() ? 0 : (const char*)value) == TRUE;
 #else
   if(value.isEmpty())
-    return unsetenv((const char*)name);
+    return unsetenv((const char*)name) == 0;
   return setenv((const char*)name, (const char*)value, 1) == 0;
 #endif
 }
